@@ -20,36 +20,36 @@ type Oblig struct {
 	Props   []string
 	Comment string
 	// results
-	Status  string // proved | failed | unknown
-	Solver  string
-	Secs    float64
-	Model   string
-	Expect  string // "unsat" normally; "sat" for cover obligations
+	Status string // proved | failed | unknown
+	Solver string
+	Secs   float64
+	Model  string
+	Expect string // "unsat" normally; "sat" for cover obligations
 }
 
 type Q struct {
-	P        *Prog
-	so       *Sorts
-	lines    []string
-	nfresh   int
-	obligs   []*Oblig
-	notes    []string
-	strlits  map[string]Term
-	litOf    map[string]string
-	declared map[string]bool
-	ngen     int
-	fnName   string
-	props    []string
-	unsupported []string
-	noOblig  int // >0: suppress obligations (spec evaluation / pure mode)
-	pureDepth int
-	extraDecl []string // uninterpreted function declarations (go before lines)
-	extraSeen map[string]bool
-	modelVars []string // symbols whose values we want in counterexamples
-	nilChecked map[string]bool
-	needStrCmp bool
+	P             *Prog
+	so            *Sorts
+	lines         []string
+	nfresh        int
+	obligs        []*Oblig
+	notes         []string
+	strlits       map[string]Term
+	litOf         map[string]string
+	declared      map[string]bool
+	ngen          int
+	fnName        string
+	props         []string
+	unsupported   []string
+	noOblig       int // >0: suppress obligations (spec evaluation / pure mode)
+	pureDepth     int
+	extraDecl     []string // uninterpreted function declarations (go before lines)
+	extraSeen     map[string]bool
+	modelVars     []string // symbols whose values we want in counterexamples
+	nilChecked    map[string]bool
+	needStrCmp    bool
 	assumeGlobals func(h *Heap)
-	curProp string // property being checked ("" = all clauses apply)
+	curProp       string // property being checked ("" = all clauses apply)
 }
 
 // propActive: a clause / obligation family scoped to property p applies in this run.
@@ -285,8 +285,6 @@ func (q *Q) mergeHeaps(conds []Term, hs []*Heap) *Heap {
 }
 
 const allocKey = "$alloc"
-
-
 
 // havocAll returns a heap about which nothing is known except alloc monotonicity.
 func (q *Q) havocAll(h *Heap, guard Term) *Heap {
